@@ -107,6 +107,20 @@ Proof.
   unfold evb. rewrite He. rewrite Ho. destruct (ev_kind ev); try reflexivity. congruence.
 Qed.
 
+(* every subspace (bi)orthonormal within itself, but two different subspaces overlap: the check
+   is on the stacked overlap matrix, so this is rejected as well *)
+Definition defect_cross_overlap (c : call) : Prop :=
+  exists ev, c_eigvecs c = Some ev /\ ev_kind ev <> VecOtherType /\ ev_overlap_cross ev = No.
+
+Theorem rejects_cross_overlap c :
+  defect_cross_overlap c ->
+  exists e, validate c = Reject e AtDefinition /\
+            (listed e \/ (e = UnboundLocalError /\ custom c = true)).
+Proof.
+  intros [ev [He [Hk Ho]]]. apply rejects_biorth. exists ev. repeat split; try assumption.
+  unfold ev_overlap. rewrite Ho. destruct (ev_overlap_within ev); reflexivity.
+Qed.
+
 (* masks *)
 Definition defect_mask_asym (c : call) : Prop :=
   c_hermitian c = true /\ c_second_quant c = false /\
